@@ -52,6 +52,7 @@ type Contract struct {
 	CalleesPreserve []string
 	NoSafety  bool
 	Records        [][2]string // history ghosts: name, expression (value at the last return of this function)
+	LocalsSurvive  bool // heap-allocated locals of the function under contract keep their values across callees that modify everything
 	DecideBranches bool // case contracts: undecided `x == constant` branches are put to the solver
 	KeepPre   bool // with nosafety: callee preconditions are still checked
 	AllocBound string
@@ -102,7 +103,7 @@ func (c *Contract) HasProp(p string) bool {
 // Thorough: the thorough tier is running (clauses labelled [...@thorough] are included).
 var Thorough bool
 
-var kwRe = regexp.MustCompile(`^(prop|func|lemma|case|closure|vars|inline-calls|requires|ensures|modifies|preserves|callees-preserve|alloc-bound|decide-branches|records|nosafety|inline-depth|may-panic|maybe-nil|inline|trusted|noverify|sweep|loop|invariant|exit-assume|unroll|iface)\b(\[[A-Za-z0-9_\-\.@]+\])?\s*(.*)$`)
+var kwRe = regexp.MustCompile(`^(prop|func|lemma|case|closure|vars|inline-calls|requires|ensures|modifies|preserves|callees-preserve|alloc-bound|decide-branches|locals-survive-calls|records|nosafety|inline-depth|may-panic|maybe-nil|inline|trusted|noverify|sweep|loop|invariant|exit-assume|unroll|iface)\b(\[[A-Za-z0-9_\-\.@]+\])?\s*(.*)$`)
 
 // ParseContractFile extracts //@ blocks from one Go file.
 func ParseContractFile(path, pkgPath string) ([]*Contract, error) {
@@ -230,6 +231,8 @@ func ParseContractFile(path, pkgPath string) ([]*Contract, error) {
 				return fmt.Errorf("%s:%d: records needs `name = expr`", path, p.line)
 			}
 			cur.Records = append(cur.Records, [2]string{strings.TrimSpace(p.text[:i]), strings.TrimSpace(p.text[i+1:])})
+		case "locals-survive-calls":
+			cur.LocalsSurvive = true
 		case "decide-branches":
 			cur.DecideBranches = true
 		case "nosafety":
